@@ -692,6 +692,12 @@ func c20Server(c c20Case, res map[string]any) {
 	metas := map[string]PunchMetadata{}           // shadow registry: exact id string -> metadata (add ops and the Respond in flight)
 	expectQ := map[string][]c20Pkt{}              // datagrams expected in each attempt's channel
 	var fl *c20Flight
+	// attempts that were registered and are over: id -> (metadata, how it ended); only used to word a failure
+	type c20Gone struct {
+		meta PunchMetadata
+		how  string
+	}
+	gone := map[string]c20Gone{}
 	metaValid := func(m PunchMetadata) bool {
 		n, e1 := hex.DecodeString(m.Nonce)
 		k, e2 := hex.DecodeString(m.Obfs)
@@ -741,17 +747,23 @@ func c20Server(c c20Case, res map[string]any) {
 			o["ok"] = e == nil
 			_, dup := metas[op.Id]
 			valid := op.Id != "" && metaValid(meta) && !dup
-			if valid != (e == nil) {
+			if g, was := gone[op.Id]; was && valid && e != nil {
+				fail(fmt.Sprintf("op %d: attempt id %q cannot be registered again after %s: %v", oi, op.Id, g.how, e))
+			} else if valid != (e == nil) {
 				fail(fmt.Sprintf("op %d: addAttempt(%q) accepted=%v, expected %v (an id is in use iff exactly this string is registered)", oi, op.Id, e == nil, valid))
 			}
 			if e == nil {
 				chans[op.Id] = ch
 				metas[op.Id] = meta
 				expectQ[op.Id] = nil
+				delete(gone, op.Id)
 			}
 		case "rm":
 			o["evs"] = takeAll(oi, op.Id) // observe what is waiting before the channel is dropped
 			sp.removeAttempt(op.Id)
+			if m, was := metas[op.Id]; was {
+				gone[op.Id] = c20Gone{m, "removeAttempt(" + strconv.Quote(op.Id) + ")"}
+			}
 			delete(chans, op.Id)
 			delete(metas, op.Id)
 			delete(expectQ, op.Id)
@@ -778,6 +790,8 @@ func c20Server(c c20Case, res map[string]any) {
 				o["ok"] = false
 				if r.err == nil {
 					fail(fmt.Sprintf("op %d: Respond(%q) returned success before any datagram arrived", oi, op.Id))
+				} else if g, was := gone[op.Id]; was && valid {
+					fail(fmt.Sprintf("op %d: attempt id %q cannot be used by Respond again after %s: %v", oi, op.Id, g.how, r.err))
 				} else if valid {
 					fail(fmt.Sprintf("op %d: Respond(%q) rejected a valid attempt whose id is not in use: %v", oi, op.Id, r.err))
 				}
@@ -787,6 +801,7 @@ func c20Server(c c20Case, res map[string]any) {
 					fail(fmt.Sprintf("op %d: Respond(%q) registered an attempt that is invalid or whose id is in use", oi, op.Id))
 				}
 				metas[op.Id] = meta
+				delete(gone, op.Id)
 				fl = f
 				if op.Tick > 0 { // let the hello ticker fire; Respond must keep waiting
 					time.Sleep(time.Duration(op.Tick) * c20RespondInterval)
@@ -827,6 +842,7 @@ func c20Server(c c20Case, res map[string]any) {
 					fail(fmt.Sprintf("op %d: Respond(%q) did not return after %s", oi, fl.id, op.End))
 				}
 				delete(metas, fl.id) // the deferred removeAttempt(attemptID)
+				gone[fl.id] = c20Gone{fl.meta, "Respond(" + strconv.Quote(fl.id) + ") has returned (" + op.End + ")"}
 				o["res"] = "noevent"
 			}
 			if fl != nil {
@@ -850,6 +866,7 @@ func c20Server(c c20Case, res map[string]any) {
 				case r := <-fl.done:
 					fl.finished, fl.resp = true, r
 					delete(metas, fl.id) // the deferred removeAttempt(attemptID)
+					gone[fl.id] = c20Gone{fl.meta, "Respond(" + strconv.Quote(fl.id) + ") has returned"}
 					switch {
 					case r.err != nil:
 						fail(fmt.Sprintf("op %d: Respond(%q) failed while waiting: %v", oi, fl.id, r.err))
@@ -913,9 +930,15 @@ func c20Server(c c20Case, res map[string]any) {
 			rets := []c20Ret{}
 			withheldBad := func(lo, hi int) { // datagrams lo..hi-1 did not come out of ReadFrom
 				for j := lo; j < hi; j++ {
-					if expPass[j] {
-						fail(fmt.Sprintf("op %d packet %d: withheld from the reader although it is neither a STUN response nor a punch packet of an attempt that is registered at that moment (finished or removed attempts: %s)", oi, j, c20Finished(c, oi, metas)))
+					if !expPass[j] {
+						continue
 					}
+					for id, g := range gone {
+						if _, e := DecodePunchPacket(c20Trunc(items[j].data, c.Buf), g.meta); e == nil {
+							fail(fmt.Sprintf("op %d packet %d: after %s a late punch packet of attempt %q is still withheld from the reader", oi, j, g.how, id))
+						}
+					}
+					fail(fmt.Sprintf("op %d packet %d: withheld from the reader although it is neither a STUN response nor a punch packet of an attempt that is registered at that moment", oi, j))
 				}
 			}
 			last := -1
@@ -966,22 +989,6 @@ func c20Server(c c20Case, res map[string]any) {
 	res["ops"] = opsOut
 	res["ok"] = ok
 	res["why"] = why
-}
-
-// ids that were registered at some point before op oi and are not registered any more (for the message only)
-func c20Finished(c c20Case, oi int, metas map[string]PunchMetadata) string {
-	var out []string
-	seen := map[string]bool{}
-	for i := 0; i < oi && i < len(c.Ops); i++ {
-		op := c.Ops[i]
-		if (op.Op == "add" || op.Op == "rstart") && !seen[op.Id] {
-			seen[op.Id] = true
-			if _, reg := metas[op.Id]; !reg {
-				out = append(out, strconv.Quote(op.Id))
-			}
-		}
-	}
-	return strings.Join(out, ",")
 }
 
 // ---------------------------------------------------------------- concurrent registration/removal while reading
